@@ -16,7 +16,7 @@ class T(pyc.BaseTracer):
 
 def run_case(case, ci):
     t = T.instance()
-    keep = []                 # every tree stays alive: ids are never reused within a history
+    keep = []                 # the registered nodes stay alive (the tables hold them); the trees handed to the rewriter die, as in real use
     recs = []
     with t.tracing_enabled():
         for j, op in enumerate(case["ops"]):
@@ -29,7 +29,7 @@ def run_case(case, ci):
             rw = t.make_ast_rewriter(fname)
             rw.gc_bookkeeping = bool(case.get("gc", True))
             out = rw.visit(node)
-            keep += [tree, out]
+            del tree, node, out
             bk = t.ast_bookkeeper_by_fname[fname]
             nodes = list(bk.ast_node_by_id.values())
             keep.append(nodes)
@@ -57,7 +57,9 @@ def run_case(case, ci):
                 got = table.get(l)
                 lines.append([l, owner[id(s)], None if got is None else owner.get(id(got), "foreign"),
                               bool(got is not None and (got.lineno == l or any(d.lineno == l for d in getattr(got, "decorator_list", []))))])
-            res["ops"].append({"n": len(r["nodes"]), "present": present, "links_ok": links_ok, "mid": mids[r["mid"]], "lines": lines, "fresh": r["fresh"]})
+            # the key of the line table: which of the bookkeeper's own nodes it is the id of (None: of none)
+            mid_node = next((i for i, n in enumerate(r["nodes"]) if id(n) == r["mid"]), None)
+            res["ops"].append({"n": len(r["nodes"]), "present": present, "links_ok": links_ok, "mid": mids[r["mid"]], "mid_node": mid_node, "lines": lines, "fresh": r["fresh"]})
     T.clear_instance()
     T.reset_bookkeeping() if hasattr(T, "reset_bookkeeping") else None
     return res
